@@ -810,11 +810,21 @@ fn run_one_history(out: &mut Out, c: C, h: &[(i64, Option<i64>)], record: bool) 
     let mut obs: Vec<String> = vec![];
     let mut owner = initial;
     let mut ok_all = true;
-    for (sender, newo) in h {
+    for (k_attempt, (sender, newo)) in h.iter().enumerate() {
         let s = addr_of(&x, c, *sender);
         let to = newo.map(|n| addr_of(&x, c, n).to_string());
         let (t, mut m) = x.transfer_msg(c, to.as_deref().unwrap_or("x"));
         if to.is_none() { let key = if c == C::Vault { "new_owner" } else { "owner" }; m["update_config"][key] = Value::Null; }
+        // every second attempt also names the other updatable fields with the values the contract reports now (a hand-over need not travel
+        // alone): fields of the message that are null and have a same-named, non-empty entry in the contract's Config answer
+        if k_attempt % 2 == 1 && !matches!(c, C::Pair | C::Trio | C::Vault) {
+            let cfg: Result<Value, _> = x.w.app.wrap().query_wasm_smart(&t, &json!({"config": {}}));
+            if let (Ok(cfg), Some(fields)) = (cfg, m["update_config"].as_object_mut()) {
+                for (k, v) in fields.iter_mut() {
+                    if v.is_null() && k != "owner" { if let Some(cur) = cfg.get(k) { if !cur.is_null() && cur.as_str() != Some("") { *v = cur.clone(); } } }
+                }
+            }
+        }
         let before = full_snapshot(&x);
         let app = &mut x.w.app;
         let r = run_catch(|| exec_json(app, &s, &t, &m, &[]), |_e| E_OTHER);
